@@ -1,6 +1,6 @@
 CONSTANTS
   Devs = {}
-  EosChoices = {TRUE, FALSE}
+  EosChoices = {TRUE}
   MaxItems = 2
   MaxBody = 1
   Depth = 2
